@@ -262,8 +262,12 @@ func c27Child(args []string) int {
 	// 2b. a primary failure plus the failure of the cleanup it provokes, on the flush and merge
 	// paths (the paths that have something to report that nobody asked for)
 	setMode := func(m string) {
+		// lock order: the log calls Decide (which takes pmu) under its own mutex, so the log
+		// must never be consulted while pmu is held (an ABBA deadlock froze 8 of 1500 children
+		// of one thorough run: "C27 child watchdog")
+		n := log.Count("CreateFile")
 		pmu.Lock()
-		mode, modeBase = m, log.Count("CreateFile")
+		mode, modeBase = m, n
 		pmu.Unlock()
 	}
 	for _, m := range []string{"update+cleanup", "write+cleanup", "close+cleanup", "latecreate+cleanup", "postcommit-cleanup"} {
@@ -292,8 +296,9 @@ func c27Child(args []string) int {
 	}
 	{
 		mctx, mcancel := context.WithCancel(context.Background())
+		nw := log.Count("Write")
 		pmu.Lock()
-		cancelAt := log.Count("Write") + pr.Range(0, 3)
+		cancelAt := nw + pr.Range(0, 3)
 		pmu.Unlock()
 		go func() {
 			for t := 0; t < 2000 && log.Count("Write") <= cancelAt; t++ {
